@@ -557,8 +557,15 @@ def r4_species(ctx):
                 ctx.unrecognised(EL, "Element.__init__", f"{kind} with a charge suffix ({form}) keeps the charge", f"tests not decided: {sorted(set(unk))[:2]}")
                 continue
             want = (f"int({a})", f"int({G}[{gi}])")
-            ctx.check(pairs == [want], EL, "Element.__init__", f"{kind} with a charge suffix ({form}) keeps the charge",
-                      detail=[list(p_) for p_ in pairs], expected=[f"int({a})", f"int(groups[{gi}])"])
+            what = f"{kind} with a charge suffix ({form}) keeps the charge"
+            dropped = [p_ for p_ in pairs if p_[1] in ("0", "int(0)", "None", None)]
+            wrong_iso = [p_ for p_ in pairs if p_[0] is not None and p_[0] not in (f"int({a})", str(a))]
+            if pairs == [want]:
+                ctx.holds(EL, "Element.__init__", what)
+            elif dropped or wrong_iso:
+                ctx.violated(EL, "Element.__init__", what, detail=[list(p_) for p_ in (dropped or wrong_iso)], expected=[f"int({a})", f"int(groups[{gi}])"])
+            else:
+                ctx.form(False, EL, "Element.__init__", what, detail=[[str(x)[:80] for x in p_] for p_ in pairs])
     # the lookups receive the parsed fields in the roles their parameters name: isotope number and charge are both small
     # integers (or None), so passing one for the other type-checks and silently drops or misplaces the charge
     ROLE = {"iso": "self.isotope", "isotope": "self.isotope", "A": "self.isotope", "ion": "self.ionisation", "ionisation": "self.ionisation", "charge": "self.ionisation",
